@@ -83,8 +83,11 @@ namespace ip {
 			m_io_service.rebind_socket(&s, this, m_bound_to);
 
 		// a timer that is waiting cannot be moved (the simulation refers to it
-		// by address). Start ours instead
-		if (s.m_resend_timer.cancel() > 0) schedule_resend();
+		// by address). Start ours instead. The other socket's timer may also
+		// have expired already, without having resent anything yet
+		if (s.m_resend_timer.cancel() > 0
+			|| (!m_outgoing_packets.empty() && m_bytes_in_flight == 0))
+			schedule_resend();
 	}
 
 	tcp::socket::~socket()
@@ -405,9 +408,10 @@ namespace ip {
 			// refusal has made its way back
 			m_connect_handler = std::move(h);
 			m_connect_timer.expires_after(chrono::milliseconds(50));
-			m_connect_timer.async_wait([this, ec](boost::system::error_code const& e)
+			std::weak_ptr<int> alive = m_alive;
+			m_connect_timer.async_wait([this, alive, ec](boost::system::error_code const& e)
 			{
-				if (e || !m_connect_handler) return;
+				if (e || alive.expired() || !m_connect_handler) return;
 				post(m_io_service, aux::make_malloc(std::bind(std::move(m_connect_handler), ec)));
 				m_connect_handler = nullptr;
 			});
@@ -847,9 +851,10 @@ namespace ip {
 	{
 		// TODO: derive the timeout from the round-trip time
 		m_resend_timer.expires_after(chrono::seconds(1));
-		m_resend_timer.async_wait([this](boost::system::error_code const& ec)
+		std::weak_ptr<int> alive = m_alive;
+		m_resend_timer.async_wait([this, alive](boost::system::error_code const& ec)
 		{
-			if (ec) return;
+			if (ec || alive.expired()) return;
 			resend_packets();
 		});
 	}
